@@ -107,6 +107,35 @@ pub fn fresh_encode(kind: Kind, k: usize, r: usize, b: usize, shards: &[Vec<u8>]
     Ok(res.recovery_iter().map(<[u8]>::to_vec).collect())
 }
 
+/// Does a freshly constructed encoder given the same shards pass the result probe?
+pub fn fresh_encoder_probe_ok(kind: Kind, k: usize, r: usize, b: usize, shards: &[Vec<u8>], seed: u64) -> bool {
+    let Ok(mut enc) = enc_new(kind, k, r, b, None) else { return false };
+    for s in shards {
+        if enc.add(s).is_err() {
+            return false;
+        }
+    }
+    let Ok(res) = enc.encode() else { return false };
+    probe_encoder_result(&res, r, b, seed).is_ok()
+}
+
+/// Does a freshly constructed decoder given the same shards pass the result probe?
+pub fn fresh_decoder_probe_ok(kind: Kind, k: usize, r: usize, b: usize, adds: &[Add], seed: u64) -> bool {
+    let Ok(mut dec) = dec_new(kind, k, r, b, None) else { return false };
+    let mut given = vec![false; k];
+    for a in adds {
+        let res = if a.is_rec { dec.add_recovery(a.index, &a.data) } else { dec.add_original(a.index, &a.data) };
+        if res.is_err() {
+            return false;
+        }
+        if !a.is_rec {
+            given[a.index] = true;
+        }
+    }
+    let Ok(res) = dec.decode() else { return false };
+    probe_decoder_result(&res, k, b, &given, seed).is_ok()
+}
+
 #[derive(Clone, Debug)]
 pub struct Add {
     pub is_rec: bool,
